@@ -56,6 +56,14 @@ def classify(e, group):
             return "nego|%s|initiator-dependent" % cls, "the outcome for the same two lists depends on which side initiated"
         return "nego|%s|order-dependent" % cls, "the outcome for the same two advertised sets and speeds depends on the order of the lists"
     both = e["ap"] and e["bp"]
+    if e.get("plain_early", 0) > 0:
+        return "nego|%s|unsealed-accepted-before-completion" % cls, "an end that had not completed the handshake took an unsealed message as payload (unencrypted operation without agreement)"
+    for k, o in ((0, e["x"]), (1, e["y"])):
+        pa = e.get("plain_after", ["na", "na"])[k]
+        if o not in (PLAIN, 99) and pa == "acc":
+            return "nego|%s|unsealed-accepted-on-cipher-session" % cls, "an end that selected a cipher took an unsealed message as payload"
+        if o == PLAIN and pa == "rej":
+            return "nego|plain-both|unsealed-rejected", "an unencrypted session refuses unsealed messages"
     if (e["x"] == PLAIN or e["y"] == PLAIN) and not both:
         return "nego|%s|plain-without-consent" % ("plain-one-side" if e["ap"] or e["bp"] else cls), \
             "unencrypted operation selected although not both ends enabled it"
